@@ -3,6 +3,11 @@
 EXTENDS TraceBase, Crc
 Verdict(e) ==
   IF e.panic # "" THEN "panic"
+  ELSE IF e.op = "emitted" THEN
+       (IF Len(e.section) < 7 THEN "emitted-section-too-short"
+        ELSE IF ((e.section[2] % 16) * 256) + e.section[3] # Len(e.section) - 3 THEN "emitted-section-length"
+        ELSE IF ~Residue0(e.section) THEN "emitted-" \o e.kind \o "-section-crc-residue-nonzero"
+        ELSE "")
   ELSE IF e.crc # Crc32(e.data) THEN "crc-value"
   ELSE IF e.crc_appended # <<0, 0, 0, 0>> THEN "residue-nonzero"
   ELSE IF ~e.input_same THEN "input-modified"
